@@ -113,6 +113,11 @@ type RunConfig struct {
 	Runners   RunnerSpec    `json:"runners"`
 	ReadYield int           `json:"read_yield"` // every n-th Read is a scheduling point (0: none)
 	Prelude   []PreludeSpec `json:"prelude,omitempty"`
+	// Companion: another detection running at the same time in the same
+	// process, on its own source (started just before the observed call, as
+	// its own task; its workers are tasks too). Its outcome is not judged; the
+	// observed call must not notice it.
+	Companion []PreludeSpec `json:"companion,omitempty"`
 	// Carrier: the kind of Go object that hands the stream over ("" = the
 	// simulated device, a plain io.Reader; bytes | bufio | file | pipe, see
 	// carrier.go); CarrierOffset: bytes of header already consumed from it
